@@ -6,6 +6,11 @@ mod gen_exp;
 mod props;
 mod rng;
 mod sx;
+mod pre_gen;
+mod pre_unroll;
+mod pre_worker;
+mod pre_expand;
+mod pre_sx;
 
 use std::io::Write;
 
@@ -15,6 +20,7 @@ fn arg(args: &[String], name: &str) -> Option<String> {
 
 fn main() {
     let args: Vec<String> = std::env::args().collect();
+    if pre_worker::dispatch(&args) { return; }
     if args.len() >= 3 && args[1] == "explore" {
         explore::explore(&std::fs::read_to_string(&args[2]).expect("read"));
         return;
